@@ -338,7 +338,7 @@ def contract_layers(geo, old_layers, sel, factor, atm_name, surfaces):
 # ---------------------------------------------------------------------------------------------
 # geometries
 
-SURF_PATTERNS = [[0.0], [0.0, -0.5, -1.0, -1.75, 0.4, -3.2, -0.999], [0.3, -2.0, -1.0], [-4.4, 0.0, -2.5, -0.25]]
+SURF_PATTERNS = [[0.0], [0.0, -0.5, -1.0, -1.75, 0.4, -3.2, -0.999], [0.3, -2.0, -1.0], [-4.4, 0.0, -2.5, -0.25, -7.0, -3.5]]
 
 
 def set_surfaces(g, pattern):
@@ -519,9 +519,24 @@ def supported(geo, op):
     return all(len(c.node) in (3, 4) for c in cols if id(c) in ids)
 
 
+def backrefs_ok(geo):
+    """precondition shared with C10: neighbour / connection back-references agree with the connection list. (Where an
+    earlier edit has broken them - reported by the C10 harness - a later split or refinement is not charged for it.)"""
+    nb = dict((id(c), set()) for c in geo.columnlist)
+    kk = dict((id(c), set()) for c in geo.columnlist)
+    for k in geo.connectionlist:
+        a, b = k.column
+        if id(a) not in nb or id(b) not in nb: return False
+        nb[id(a)].add(id(b)); nb[id(b)].add(id(a)); kk[id(a)].add(id(k)); kk[id(b)].add(id(k))
+    return all(set(id(x) for x in c.neighbour) == nb[id(c)] and set(id(x) for x in c.connection) == kk[id(c)] for c in geo.columnlist)
+
+
 def evaluate(geo, op, base, npts, rs, rec, check_unchanged=True):
     """runs op on geo (in place) and evaluates every contract; returns True if geo is still fit for further use"""
     k = op[0]
+    if not backrefs_ok(geo):
+        rec.count('precondition-not-met(skipped)')
+        return False
     rec.cases += 1
     before = Snap(geo)
     cols = canon(geo)
